@@ -140,6 +140,13 @@ def opCli : Handler := fun args impl =>
     | _, _ => bad
   | _ => bad
 
+/-- `pm.factor.i128 f p pusize`: the generic routine instantiated at `i128` (other arithmetic, other
+random sampler: no history to replay) — oracle only -/
+def opFactorMachine : Handler := fun args impl =>
+  match args with
+  | [fs, ps, us] => ("-", (opFactor [fs, ps, us, "_"] impl).2)
+  | _ => bad
+
 def ops : List (String × Handler) :=
-  [("cli.fmp", opCli), ("pm.sqfree", opSqfree), ("pm.degree", opDegree), ("pm.fsplit", opFsplit), ("pm.factor", opFactor), ("pm.factor.same", opSame)]
+  [("cli.fmp", opCli), ("pm.factor.i128", opFactorMachine), ("pm.sqfree", opSqfree), ("pm.degree", opDegree), ("pm.fsplit", opFsplit), ("pm.factor", opFactor), ("pm.factor.same", opSame)]
 end NTV.Driver.C08
